@@ -264,3 +264,26 @@ def one_sided_signed_part_tests(repo: Repo, module_names) -> List[Tuple[FuncInfo
                 if sidedness(t, is_part) == "one":
                     out.append((fi, t))
     return out
+
+
+_IDENTITY_CTORS = {"identity", "eye", "Identity"}
+
+
+def _is_identity_like(e: ast.AST) -> bool:
+    return isinstance(e, ast.Call) and (dotted(e.func) or "").split(".")[-1] in _IDENTITY_CTORS
+
+
+def identity_padding_on_the_left(repo, module_names):
+    """``kron(identity(...), M)`` for a matrix ``M`` that is not an identity: in this code base qubit 0 is the leftmost (most
+    significant) Kronecker factor, so qubits *added* to a register get higher indices and their identity factor belongs on the
+    right. Padding on the left moves the operator to the last qubits. Returns [(FuncInfo, call)]."""
+    out = []
+    for m in module_names:
+        mod = repo.module(m)
+        for fi in mod.all_functions() if hasattr(mod, "all_functions") else list(mod.functions.values()) + [f for c in mod.classes.values() for f in c.methods.values()]:
+            for c in body_walk(fi.node):
+                if isinstance(c, ast.Call) and (dotted(c.func) or "").split(".")[-1] in ("kron", "kronecker_product") and len(c.args) >= 2:
+                    a, b = c.args[0], c.args[1]
+                    if _is_identity_like(a) and not _is_identity_like(b) and not (len(c.args) >= 3 and _is_identity_like(c.args[2])):
+                        out.append((fi, c))
+    return out
